@@ -83,6 +83,14 @@ def check_chain_overlap(
     previous = last_skr.bundles[-1]
     ksr_first = ksr.bundles[0]
 
+    if ksr_first.inception > previous.expiration:
+        # Same test as for consecutive bundles inside a KSR (KSR-POLICY-SIG-OVERLAP): a gap in the
+        # timeline is never acceptable, whatever minimum overlap the KSR declares.
+        raise KSR_CHAIN_OVERLAP_Violation(
+            f'Bundle "{fmt_bundle(ksr_first)}" does not overlap with last bundle in SKR(n-1) '
+            f'"{fmt_bundle(previous)}" ({ksr_first.inception} > {previous.expiration})'
+        )
+
     overlap = previous.expiration - ksr_first.inception
     if overlap < ksr.zsk_policy.min_validity_overlap:
         logger.debug(f"Last bundle in SKR(n-1) expiration: {previous.expiration}")
